@@ -65,6 +65,22 @@ fn exec_op<V: Variant>(kind: char, seed: u64) -> String {
                     Err(e) => e,
                 }
             }
+            'V' => {
+                // verification only: a valid pair, the same signature under another message, a corrupted body
+                let sig = with_stream(76, || V::sign(b"verify history", &sk));
+                let sb = V::sig_to_bytes(&sig);
+                let pk2 = V::pk_from_bytes(&pkb).map_err(|e| e.to_string());
+                let sg2 = V::sig_from_bytes(&sb).map_err(|e| e.to_string());
+                match (pk2, sg2) {
+                    (Ok(pk2), Ok(sg2)) => {
+                        let mut bad = sb.clone();
+                        bad[60] ^= 0x04;
+                        let badv = V::sig_from_bytes(&bad).map(|b| V::verify(b"verify history", &b, &pk2)).unwrap_or(false);
+                        format!("valid={} other_message={} corrupted={}", V::verify(b"verify history", &sg2, &pk2), V::verify(b"another message", &sg2, &pk2), badv)
+                    }
+                    (a, b) => format!("decode failed: {:?} {:?}", a.err(), b.err()),
+                }
+            }
             _ => "unknown".to_string(),
         }
     });
@@ -76,10 +92,14 @@ fn exec_op<V: Variant>(kind: char, seed: u64) -> String {
 
 pub fn child_history(args: &[String]) {
     // args[0]: comma separated ops like K512,S1024,D512 ; seeds fixed per variant
+    // an upper-case operation uses the first key of its variant, a lower-case one a second key (a cache keyed by
+    // the degree alone, by an address or by part of the key shows when two keys of one variant meet in one process)
     for op in args[0].split(',') {
-        let kind = op.chars().next().unwrap_or('?');
+        let c = op.chars().next().unwrap_or('?');
+        let kind = c.to_ascii_uppercase();
+        let second = c.is_ascii_lowercase();
         let n: usize = op[1..].parse().unwrap_or(0);
-        let line = if n == 512 { exec_op::<V512>(kind, 2001) } else { exec_op::<V1024>(kind, 2002) };
+        let line = if n == 512 { exec_op::<V512>(kind, if second { 2003 } else { 2001 }) } else { exec_op::<V1024>(kind, if second { 2004 } else { 2002 }) };
         println!("{} {}", op, line);
     }
 }
@@ -96,7 +116,7 @@ pub fn differential(ctx: &mut Ctx, name: &str, alphabet: &[&str], depth: usize, 
     let results: Vec<(String, Result<String, String>)> = hists.par_iter().map(|h| (h.join(","), child(&["history", &h.join(",")]))).collect();
     let mut part = Part::new(
         name,
-        &format!("every sequence of <= {} operations over {:?} (K = keygen, S = keygen+sign x3 (fixed streams)+verify, D = keygen+to_bytes+from_bytes+sign with the decoded key+verify; fixed seeds) run in its own fresh process on the main thread; each operation's digest (key bytes, tree leaves bit for bit, signature bytes, verdicts) must be identical in every history it appears in", depth, alphabet),
+        &format!("every sequence of <= {} operations over {:?} (K = keygen, S = keygen+sign x3 (fixed streams)+verify, D = keygen+to_bytes+from_bytes+sign with the decoded key+verify, V = verify of a valid, a mismatched and a corrupted pair; upper case = first key of the variant, lower case = a second key; fixed seeds) run in its own fresh process on the main thread; each operation's digest (key bytes, tree leaves bit for bit, signature bytes, verdicts) must be identical in every history it appears in", depth, alphabet),
     );
     let mut by_op: BTreeMap<String, (String, String)> = BTreeMap::new(); // op -> (digest, first history)
     for (h, r) in results {
